@@ -3,7 +3,7 @@
 TRACE  filter queries built from ~45 atoms (tests on '@'/'$' queries of every
        shape, comparisons, function calls, nested filters to depth 3) combined
        with ! && || and parentheses, in minimal and fully parenthesised form,
-       applied to an array and an object whose children cover 16 value kinds
+       applied to an array and an object whose children cover 21 value kinds
        (0, false, "", null, [], {}, ...), to scalars, and seeded random filter
        queries on random documents; every find() validated by TLC (Eval.tla).
 """
@@ -16,7 +16,9 @@ from .. import core, gen, impl
 from . import common
 
 KINDS = [0, 1, 1.5, "", "a", True, False, None, [], [0], [[]], {}, {"a": 0}, {"a": None}, {"a": {"b": 1}}, {"b": 1},
-         [{"b": 2}, 1], {"a": [1, {"b": 0}], "b": False}]
+         [{"b": 2}, 1], {"a": [1, {"b": 0}], "b": False},
+         # strings where a multi-segment '@' query puts an index or a slice (a Python str can be subscripted; a JSON string has no elements)
+         {"a": "xyz"}, ["xy", "z"], "xyz"]
 
 ATOMS = [
     "@", "@.a", "@[0]", "@.*", "@..b", "@.a.b", "@[0][0]", "@['a','b']", "@[::-1]", "$.x", "$.nope", "$.y[0]", "$.z", "$..b",
@@ -25,6 +27,8 @@ ATOMS = [
     "count(@.*) > 0", "count(@..*) == 1", "length(@) == 0", "length(@) >= 1", "length(@.a) == 1", "value(@.*) == 0",
     "value(@..b) == 1", "match(@, 'a')", "search(@, 'a|0')", "@[?@.b]", "@[?@ == 0]", "@[?$.x == 1]", "@[?@ == $.x]",
     "@[?@[?$.x]]", "@.*[?@]", "@[?!@]", "@[?@[?@ == $.x]]", "$.y[?@ == 1]", "$.arr[?@ == 0]", "$[?@]",
+    # singular queries of two segments whose LAST index lands on a string
+    "@.a[0]", "@[0][1]", "@[0][-1]", "@.a[-1] == 'z'", "@[0][0] == 'x'", "@.a[0:2]", "@[1][0]", "$.y[1][0]", "$.y[1][0] == 'a'",
 ]
 
 
@@ -111,7 +115,7 @@ def run(chk: core.Check, tier: str, seed: int) -> None:
                  only=lambda c: c.startswith(("C13 find", "C03")) or not c.startswith(("C03", "C04", "C05", "C13")))
     chk.rule = (
         f"{n_sys} systematic records ({len(ATOMS)} atoms and their negations, {len(exprs) - 2 * len(ATOMS)} seeded "
-        "and/or/not/paren combinations, minimal and fully parenthesised, on an array and an object with 18 child kinds, "
+        f"and/or/not/paren combinations, minimal and fully parenthesised, on an array and an object with {len(KINDS)} child kinds, "
         f"under child/descendant segments and selector lists, and on scalars) + {n_rand} seeded random filter queries; "
         "non-trivial = distinct (query, doc) selecting at least one node"
     )
